@@ -5,6 +5,7 @@ package harness
 // crash points by rebuilding the store from the recorded write log.
 
 import (
+	"github.com/gostdlib/base/retry/exponential"
 	"fmt"
 	"os"
 	"sync"
@@ -79,6 +80,10 @@ type Scenario struct {
 	FailNth  int    `json:"failnth"`
 	Root     string `json:"root"` // non-empty: file-backed sqlite store in this directory
 	MaxAttPlugin bool `json:"maxattplugin"`
+	// BadPolicy: the registry is offered a plugin with an invalid RetryPolicy ("negrand", "zerointerval", "mult1", "bigrand").
+	// It must refuse it; if it accepts it, the plan of the scenario uses that plugin - and must not take the process down.
+	BadPolicy string `json:"badpolicy"`
+	bpOK      bool
 	NegRetries bool `json:"negretries"` // actions are submitted with Retries -1 / -2: "less than none" is none (Shape.Retries stays 0)
 	LagIdx   bool   `json:"lagidx"` // ws histories: at a restart the search index may still list a finished plan as Running
 
@@ -161,6 +166,9 @@ func buildPlan(sc *Scenario, pl int) *workflow.Plan {
 	}
 	if sc.MaxAttPlugin {
 		seqPlugin = "actma" // ... the plugin whose RetryPolicy declares MaxAttempts 6
+	}
+	if sc.bpOK {
+		seqPlugin = "actbp" // the plugin with the invalid RetryPolicy that the registry accepted
 	}
 	mk := func(prefix string, n int) *workflow.Checks {
 		c := &workflow.Checks{Delay: delay}
@@ -434,6 +442,29 @@ func waitPlan(ctx context.Context, ws *coercion.Workstream, id uuid.UUID, d time
 }
 
 var errHang = fmt.Errorf("hang")
+
+// offerBadPolicy offers the registry a plugin whose RetryPolicy is invalid; true if the registry took it.
+func offerBadPolicy(reg *registry.Register, s *sched, kind string) bool {
+	p := exponential.Policy{InitialInterval: time.Millisecond, Multiplier: 1.1, RandomizationFactor: 0, MaxInterval: 2 * time.Millisecond}
+	switch kind {
+	case "negrand":
+		p.RandomizationFactor = -0.5
+	case "bigrand":
+		p.RandomizationFactor = 1.5
+	case "zerointerval":
+		p.InitialInterval = 0
+	case "mult1":
+		p.Multiplier = 1
+	default:
+		return false
+	}
+	ok := false
+	func() {
+		defer func() { recover() }()
+		ok = reg.Register(&plug{name: "actbp", s: s, pol: &p}) == nil
+	}()
+	return ok
+}
 
 // newWS is coercion.New on a store that may hold plans to resume: recovery runs inside New, so a recovery that never
 // comes back is a hang of the resuming process like a Wait that never returns (third result true).
